@@ -1333,7 +1333,7 @@ impl Property for C09 {
         "C09"
     }
     fn rule(&self) -> String {
-        "run: grammar-generated TeX programs over the full installed vocabulary (enumerated from texlang_stdlib::built_in_commands at run time, + \\par, \\newline), user macros, braces, boundary numbers/dimensions/indices/character codes, non-ASCII text, ^^ notation, token soup, every statement-prefix of a sample of programs, each in errorstop/scroll/nonstop/batch mode; non-trivial = the run ended within the step budget (ok, error or panic). proto: every event sequence of length <= 4 plus random ones. chr/uint/ifcase: boundary values.".into()
+        "run: grammar-generated TeX programs over the full installed vocabulary (enumerated from texlang_stdlib::built_in_commands at run time, + \\par, \\newline), user macros, braces, boundary numbers/dimensions/indices/character codes, non-ASCII text, ^^ notation, token soup, every statement-prefix of a sample of programs, each in errorstop/scroll/nonstop/batch mode; plus extreme register states: \\count1, \\dimen0 and each component of \\skip0 (finite and fil/fill/filll) driven to -2^31, -2^31+1, 2^31-1, +-2^30, +-(2^30-1) by wrapping \\advance / \\multiply chains, then every one of ~130 arithmetic, scanning, comparison, index and code uses of that register, in all four modes; non-trivial = the run ended within the step budget (ok, error or panic). proto: every event sequence of length <= 4 plus random ones. chr/uint/ifcase: boundary values.".into()
     }
     fn builtin_corpus(&self) -> Vec<String> {
         let mut v = vec![];
